@@ -729,6 +729,8 @@ func replay(path string) {
 		checkBytes("replay", bl("compressed"), s, uint32(v))
 	case "undo":
 		checkUndo("replay", undoFromJSON(m))
+	case "fallback":
+		checkFallback("replay", fallbackFromJSON(m))
 	case "snap":
 		sc := &snapCase{Compressed: bl("compressed"), ViaCommit: bl("via_commit")}
 		h, _ := m["height"].(float64)
@@ -786,6 +788,11 @@ func main() {
 	stage("records", runRecords)
 	stage("malformed", runMalformed)
 	stage("snapshots", runSnapshots)
+	if r.Violations() == 0 {
+		stage("fallback", runFallback)
+	} else {
+		r.Hit("fallback-stream-skipped(earlier streams already failed)")
+	}
 	if r.Violations() == 0 {
 		stage("undo", runUndo)
 	} else {
